@@ -206,6 +206,11 @@ func (c *checker) attempt(sc scenario, script ctrl.Script, dead bool) ctrl.Resul
 		if res.Failed && res.ErrClass == "nil" && !(!res.Success && res.ErrSet) {
 			c.r.Fail(cls, "a call failed but Index returned a nil error and a report that does not carry an error: "+wit)
 		}
+		// A cancelled call either completed everything before the cancellation or says so.
+		// (the three-call lookup of an indexed manifest returns what is stored, whatever it is)
+		if res.Cancelled && res.ErrClass == "nil" && !(res.Success && res.Scanned) && !strings.HasPrefix(res.Trace, "MG") {
+			c.r.Fail(cls, "the caller's context was cancelled during Index, which returned a nil error and an unfinished report: "+wit)
+		}
 		// Success is claimed only if it was achieved and persisted.
 		if res.ErrClass == "nil" && res.Success {
 			cold := c.s.Cold(sc.Cfg, sc.M)
@@ -314,6 +319,59 @@ func (c *checker) faulty(sc scenario, scripts []ctrl.Script, dead bool) {
 	if !c.s.Lost && (!ok || c.nfaulty%5 == 0) {
 		c.deleteRetry(sc, hist+"+retries")
 	}
+}
+
+// newFaults: libindex.New with each required argument missing, with
+// RegisterScanners failing, with each scanner-constructor call failing — it must
+// return an error and no Libindex — and the deployment that was in place keeps
+// indexing as before.
+func (c *checker) newFaults(sc scenario, rnd *hx.Rand) {
+	c.setup(sc)
+	if c.s.Lost {
+		return
+	}
+	necos := 0
+	for _, s := range sc.Cfg {
+		necos = max(necos, s.Eco+1)
+	}
+	var all []ctrl.NewFaults
+	for i := 0; i < 5; i++ {
+		nf := ctrl.NewFaults{CtorFailAt: -1}
+		switch i {
+		case 0:
+			nf.NoLocker = true
+		case 1:
+			nf.NoStore = true
+		case 2:
+			nf.NoArena = true
+		case 3:
+			nf.NoClient = true
+		case 4:
+			nf.RegisterFails = true
+		}
+		all = append(all, nf)
+	}
+	for k := 0; k < 6*necos; k++ {
+		all = append(all, ctrl.NewFaults{CtorFailAt: k})
+	}
+	lib := c.s.W.Lib
+	for _, nf := range all {
+		out := c.s.New(nf, sc.Cfg)
+		wit := fmt.Sprintf("%s: %s => %s", sc, ctrl.NewOp(nf, sc.Cfg), out)
+		c.r.Case("new "+wit, true)
+		if !strings.HasPrefix(out, "err ") || c.s.W.Lib != lib {
+			c.r.Fail("", "libindex.New did not fail (error and no Libindex) although its arguments / environment were faulty: "+wit)
+		}
+	}
+	// a constructor call beyond the two walks is never made: New succeeds
+	if out := c.s.New(ctrl.NewFaults{CtorFailAt: 6 * necos}, sc.Cfg); !strings.HasPrefix(out, "tok ") {
+		c.r.Fail("", fmt.Sprintf("libindex.New failed although nothing was wrong: %s => %s", sc, out))
+	}
+	res := c.attempt(sc, ctrl.Script{}, false)
+	if res.ErrClass != "nil" || !res.Success {
+		c.r.Fail("", "after failed libindex.New calls a fault-free Index fails: "+sc.String()+" => "+res.Line())
+	}
+	c.retry(sc, "failed New calls; index", false, false)
 }
 
 // known replays the witnesses of the listed findings.
@@ -515,6 +573,10 @@ func Run(cfg hx.Config) error {
 		n := clean.Calls
 		r.Count(fmt.Sprintf("scenario.layers=%d", len(sc.M)))
 		r.Count(fmt.Sprintf("scenario.pre=%d", len(sc.Pre)))
+		// libindex.New itself
+		if i%3 == 0 {
+			c.newFaults(sc, rnd)
+		}
 		// the caller's context is dead before the call
 		c.faulty(sc, []ctrl.Script{{}}, true)
 		// every single fault
